@@ -136,6 +136,14 @@ func fieldExprs(defs []meta.Definition) []fieldExpr {
 		}
 		out = append(out, fieldExpr{text: j(p), q: [][]string{p}, shape: shape})
 	}
+	// a path that goes on below a leaf names nothing
+	belowLeaf := 0
+	for _, p := range paths {
+		if _, isLeaf := defAtRel(defs, p).(meta.Leafable); isLeaf && belowLeaf < 3 {
+			belowLeaf++
+			out = append(out, fieldExpr{text: j(p) + "/zz", q: [][]string{append(append([]string{}, p...), "zz")}, shape: "below-a-leaf"})
+		}
+	}
 	// alternatives: pairs of paths
 	for i := 0; i < len(paths) && i < 8; i++ {
 		for k := i + 1; k < len(paths) && k < 8; k++ {
